@@ -257,10 +257,28 @@ func genC06(t *Tape) *Plan {
 	g := NewGen(t, &k, "C06")
 	baseSched(t, &g.plan.Cfg)
 	g.plan.Cfg.MapOrder = t.Draw("c06.maporder", 4) != 0
+	if t.Draw("c06.v5ids", 2) == 0 {
+		k.V5Pct = 100 // all MQTT 5 with one subscription identifier per SUBSCRIBE: copies can be attributed to groups
+		k.MultiFilterPct = 0
+	}
 	for s := 0; s < k.Slots; s++ {
 		g.Connect(s)
 	}
-	return g.Run()
+	p := g.Run()
+	if k.V5Pct == 100 {
+		for i := range p.Ops {
+			if p.Ops[i].Kind == "subscribe" && p.Ops[i].Pkt != nil {
+				var props refcodec.Props
+				for _, pr := range p.Ops[i].Pkt.Props {
+					if pr.ID != refcodec.PSubscriptionID {
+						props = append(props, pr)
+					}
+				}
+				p.Ops[i].Pkt.Props = append(props, refcodec.Prop{ID: refcodec.PSubscriptionID, Int: uint32(i + 1)})
+			}
+		}
+	}
+	return p
 }
 
 func checkC06(r *Result) []Violation {
@@ -312,6 +330,57 @@ func checkC06(r *Result) []Violation {
 				}
 			}
 			if !judge {
+				// A member that also belongs to another matching group (or holds a matching plain subscription) gets one
+				// merged copy, so "received" says nothing about this group. It can still be judged when every matching
+				// subscription of every member carries its own subscription identifier: the copy lists the identifiers
+				// of the subscriptions it was sent for.
+				attributable := true
+				chosen = 0
+				for _, id := range members {
+					c := m.Sess[id]
+					if c == nil || c.Conn == nil || c.Conn.Ver != 5 {
+						attributable = false
+						break
+					}
+					ids := map[uint32]int{}
+					for _, ss := range j.Shared[id] {
+						for _, s := range ss {
+							ids[s.SubID]++
+						}
+					}
+					for _, s := range j.Matching[id] {
+						ids[s.SubID]++
+					}
+					for v, n := range ids {
+						if v == 0 || n > 1 {
+							attributable = false
+						}
+					}
+					if !attributable {
+						break
+					}
+					for _, s := range j.Shared[id][g] {
+						for _, pr := range copies[id] {
+							for _, p := range pr.P.Props.All(refcodec.PSubscriptionID) {
+								if p.Int == s.SubID {
+									chosen++
+								}
+							}
+						}
+					}
+				}
+				if !attributable {
+					continue
+				}
+				if chosen > 1 {
+					var fl []string
+					for f := range filters {
+						fl = append(fl, f)
+					}
+					sort.Strings(fl)
+					out = append(out, viol("C06", "multiple-members-chosen", fmt.Sprintf("publish op %d %s: %d copies carry the subscription identifier of a member subscription of share group %q (%v)", oi, op.Pkt, chosen, g, members), w.EndSeq,
+						"group_filters", strings.Join(fl, ","), "distinct_filters", fmt.Sprint(len(fl)), "judged_by", "subscription-identifier"))
+				}
 				continue
 			}
 			var fl []string
